@@ -365,6 +365,10 @@ def run_path(events, returns_node, local, float_check):
                 return (k, 'field store on an untracked node')
             if float_check and st[ev[3]]['exposed']:
                 return (k, 'unprotected node used after a node-creating call or a recursive dereference')
+        elif t in ('fieldAdd', 'fieldSet'):
+            return (k, f'the counter `_ref` of a handle is changed outside init / __dealloc__ / incref / decref: {ev[1]}')
+        elif t in ('fieldTest', 'handleNode'):
+            pass
         else:
             return (k, f'event without a rule: {t}')
     return end(len(events))
@@ -382,10 +386,93 @@ def _count(events, kinds):
     return sum(1 for e in events if e[0] in kinds)
 
 
-def method_problem(m, local):
+def field_run(events, start_zero):
+    """The counter `_ref` of the handle along one path, as an interval refined by the path
+    conditions.  Returns 'infeasible', ('bad', why) or dict(lo, hi, delta, handle)."""
+    lo = hi = 0 if start_zero else None
+    delta = 0
+    handle = None
+    for ev in events:
+        if ev[0] not in ('fieldTest', 'fieldAdd', 'fieldSet'):
+            continue
+        if handle is not None and handle != ev[1]:
+            return ('bad', 'the counters of two handles on one path')
+        handle = ev[1]
+        if ev[0] == 'fieldTest':
+            _t, _h, rel, k, holds = ev
+            if not holds:
+                rel = {'==': '!=', '!=': '==', '<': '>=', '>=': '<', '<=': '>', '>': '<='}.get(rel)
+            if rel == '==':
+                lo = k if lo is None else max(lo, k)
+                hi = k if hi is None else min(hi, k)
+            elif rel == '!=':
+                if lo == k:
+                    lo = k + 1
+                if hi == k:
+                    hi = k - 1
+            elif rel in ('<', '<='):
+                b = k - 1 if rel == '<' else k
+                hi = b if hi is None else min(hi, b)
+            elif rel in ('>', '>='):
+                a = k + 1 if rel == '>' else k
+                lo = a if lo is None else max(lo, a)
+            else:
+                return ('bad', f'unknown relation {ev[2]}')
+            if lo is not None and hi is not None and lo > hi:
+                return 'infeasible'
+        elif ev[0] == 'fieldAdd':
+            k = ev[2]
+            if k < 0 and not (lo is not None and lo + k >= 0):
+                return ('bad', 'the counter is decremented where it is not known to be positive')
+            lo = None if lo is None else lo + k
+            hi = None if hi is None else hi + k
+            delta += k
+        else:
+            if lo is None or hi is None or lo != hi:
+                return ('bad', 'the counter is overwritten where its value is not known')
+            delta += ev[2] - lo
+            lo = hi = ev[2]
+    return dict(lo=lo, hi=hi, delta=delta, handle=handle)
+
+
+def field_path_problem(role, evs):
+    """None or a reason: the invariant `_ref` = library references owned by the handle."""
+    f = field_run(evs, role == 'handleInit')
+    if f == 'infeasible':
+        return None
+    if isinstance(f, tuple):
+        return f[1]
+    raises = bool(evs) and evs[-1][0] == 'raise'
+    net = _count(evs, ('ref',)) - _count(evs, ('deref',))
+    based = role in ('handleInit', 'handleDealloc') or any(e[0] == 'handleNode' for e in evs)
+    if based:
+        direct = role == 'refDec' and ('guard', '_direct', True) in evs
+        want = 0 if direct else net       # `decref(u, _direct=True)`: the documented exception
+        if f['delta'] != want:
+            return (f'the counter `_ref` changes by {f["delta"]} while {net} library references are taken '
+                    '(negative: given back)')
+    elif any(e[0] in ('fieldAdd', 'fieldSet') for e in evs):
+        return 'the counter of a handle is changed by a function that works on a raw node'
+    if role == 'handleDealloc' and not raises and net == 0 and f['hi'] != 0:
+        return '__dealloc__ gives nothing back on a path where the counter is not known to be 0'
+    if role == 'handleInit' and not raises and not (f['lo'] == net and f['hi'] == net):
+        return 'after init the counter is not the number of references taken'
+    return None
+
+
+def method_problem(m, local, has_field=False):
     """None or (path index, event index, reason) for one extracted method."""
     role = m['role']
     paths = [evs for evs, _names in m['paths']]
+    if role != 'plain':
+        for i, evs in enumerate(paths):
+            if role == 'wrapFn' or not has_field:
+                if any(e[0] in ('fieldTest', 'fieldAdd', 'fieldSet') for e in evs):
+                    return (i, 0, f'{m["name"]} uses a counter `_ref` that the handles of this back end do not have')
+            else:
+                why = field_path_problem(role, evs)
+                if why is not None:
+                    return (i, 0, f'{m["name"]}: {why}')
     if role == 'plain':
         for i, evs in enumerate(paths):
             bad = run_path(evs, m['returns_node'], local, False)
@@ -426,13 +513,11 @@ def method_problem(m, local):
                 return (i, 0, '__dealloc__ takes a reference')
             if any(e[0] == 'deref' and e[2] not in DEREFS for e in evs):
                 return (i, 0, '__dealloc__ uses an unknown dereference function')
-            guarded = ('guard', 'self._ref == 0', True) in evs
             if raises:
                 if nd != 0:
                     return (i, 0, '__dealloc__ dereferences and then raises')
-            elif guarded:
-                if nd != 0:
-                    return (i, 0, '__dealloc__ dereferences although `self._ref == 0`')
+            elif nd == 0 and has_field:
+                pass        # accepted by `field_path_problem` only where the counter is known to be 0
             else:
                 if nd != 1:
                     return (i, 0, f'__dealloc__ gives back {nd} references on a returning path (expected exactly 1)')
@@ -644,7 +729,7 @@ def check_C19(ctx):
                     if leak is not None:
                         dead_asserts.append(dict(backend=tag, method=m['name'], line=m['line'], path=i,
                                                  if_it_fired=leak[1]))
-            bad = method_problem(m, local)
+            bad = method_problem(m, local, data['has_ref_field'][tag])
             if bad is not None:
                 i, k, why = bad
                 evs, names = m['paths'][i]
@@ -666,6 +751,21 @@ def check_C19(ctx):
                                  path=[list(e) for e in evs], event=bad[0],
                                  tags=dict(call=f'{tag}.{m["name"]}', symptom='floating-node')))
                         break
+    # every definition of the files is accounted for; nothing but the test helpers is left out
+    for tag in data['traces']:
+        tokens, found, nested = data['def_tokens'][tag], data['nfuncs'][tag], data['nested_defs'][tag]
+        if tokens != found + nested:
+            ctx.violation(
+                f'{tag}: {tokens} definition keywords (def / cpdef / cdef …() in the file, but the reader found '
+                f'{found} functions (+ {nested} nested): a definition is neither followed nor listed',
+                dict(backend=tag, tokens=tokens, found=found, nested=nested,
+                     tags=dict(call=f'{tag}.<module>', symptom='function-not-seen')))
+        for name, line, why in data['uncovered'][tag]:
+            if not why.startswith('test helper'):
+                ctx.violation(
+                    f'{tag} {name} (line {line}) is not followed by the reader: {why}',
+                    dict(backend=tag, method=name, line=line, reason=why,
+                         tags=dict(call=f'{tag}.{name}', symptom='not-followed')))
     # the functions the discipline hinges on must have been followed
     for tag in data['traces']:
         need = (['wrap@wrapFn', 'Function.init@handleInit'] if tag != 'buddy' else
@@ -710,6 +810,7 @@ REGISTRY = {
             'source level: every apply branch of cudd/cudd_zdd/sylvan/buddy x every spelling x 8 Boolean '
             'valuations against dd.bdd.BDD.apply on constants (+ quantifier branches over all 16 functions '
             'of two variables x 3 cubes), vocabulary accepted vs declared, every extracted reference trace '
-            'through an independent re-implementation of the balance rules; distinct = (backend, alias, '
-            'valuation) triples and distinct paths'),
+            'through an independent re-implementation of the balance rules (containers, the counter `_ref` of '
+            'the CUDD handles), definition keywords vs functions found, no function left unfollowed except '
+            'the test helpers; distinct = (backend, alias, valuation) triples and distinct paths'),
 }
